@@ -88,7 +88,11 @@ pub fn run() {
         if let Some(clap_err) = e.downcast_ref::<clap::Error>() {
             match clap_err.kind() {
                 clap::error::ErrorKind::DisplayHelp | clap::error::ErrorKind::DisplayVersion => {
-                    print!("{clap_err}");
+                    // print!() panics when stdout is closed or full
+                    if let Err(io_err) = write!(std::io::stdout(), "{clap_err}") {
+                        eprintln!("Error: {io_err}");
+                        std::process::exit(1);
+                    }
                     return;
                 }
                 _ => {}
